@@ -482,7 +482,7 @@ def _encode(case):
 def plan(tier):
     if tier == "quick":
         return [{"n": 450, "depth": 4}] * 16
-    return [{"n": 1500, "depth": 5}] * 48 + [{"n": 500, "depth": 7}] * 16
+    return [{"n": 800, "depth": 5}] * 48 + [{"n": 250, "depth": 7}] * 16
 
 
 def run_shard(spec, seed, res, only_bucket=None):
